@@ -230,7 +230,7 @@ def run(tier, work):
             elif e == "CallErr" and ev.get("fn") == "comp":
                 out.append({"e": "Compile", "k": cur, "finished": True, "outcome": "uncaught", "nerr": nerr, "recipe": sessions[i][cur]})
                 cur = None
-        if cur is not None and ex["id"] not in crashed_ids:
+        if cur is not None and ex["id"] not in crashed_ids and not vlib.crashed(ex):     # (a crash beyond the confirmation limit is not a second kind of failure)
             out.append({"e": "Compile", "k": cur, "finished": False, "outcome": "none", "nerr": nerr, "recipe": sessions[i][cur]})
         ims = c17eq.images(ex["events"], D, norm=D)
         if ims:
@@ -240,7 +240,7 @@ def run(tier, work):
                 ref = img
                 refim = im
             out.append({"e": "Probe", "image": img, "_im": im})
-        elif ex["id"] not in crashed_ids:
+        elif ex["id"] not in crashed_ids and not vlib.crashed(ex):
             out.append({"e": "Probe", "image": "missing"})
         projs.append(out)
     if ref is None or "results_text" not in refim or refim.get("errs"):
